@@ -177,6 +177,14 @@ func (e *Env) monitorGov(st *Step, f []string) {
 		if a0.T.Cmp(a1.T) != 0 || a0.S.Cmp(a1.S) != 0 || a0.Start.Cmp(a1.Start) != 0 || a0.Init != a1.Init {
 			st.fail("C16", "update_frame", "update of asset %d altered totals or start time", d)
 		}
+		// C14: the decay clock starts when decay is switched on, and is left alone otherwise
+		wantLast := a0.Last
+		if (a1.Rate.Cmp(a0.Rate) != 0 || a1.Intv != a0.Intv) && (a0.Rate.Cmp(bigP) == 0 || a0.Intv == 0) {
+			wantLast = post.Time
+		}
+		if a1.Last.Cmp(wantLast) != 0 {
+			st.fail("C14", "decay_clock_start", "update of asset %d: decay clock %s -> %s, expected %s", d, a0.Last, a1.Last, wantLast)
+		}
 		for _, a := range pre.Assets {
 			if a.Denom == d {
 				continue
@@ -587,4 +595,105 @@ func priceInRange(num, den *big.Int) bool {
 	}
 	m := big.NewInt(1_000_000)
 	return new(big.Int).Mul(num, m).Cmp(den) >= 0 && num.Cmp(new(big.Int).Mul(den, m)) <= 0
+}
+
+// C14: decay at an end-of-block that succeeded: w' = clamp(w * rate^n), clock += n intervals, only when due.
+func (e *Env) monitorDecay(st *Step) {
+	pre, post := st.PreS, st.PostS
+	now := post.Time
+	for _, a := range pre.Assets {
+		w := post.Asset(a.Denom)
+		if w == nil {
+			continue
+		}
+		due := !(a.Intv == 0 || a.Rate.Cmp(bigP) == 0) && new(big.Int).Add(a.Last, big.NewInt(a.Intv)).Cmp(now) <= 0
+		wantW, wantLast := a.W, a.Last
+		if due {
+			n := new(big.Int).Quo(new(big.Int).Sub(now, a.Last), big.NewInt(a.Intv))
+			var nw math.LegacyDec
+			func() {
+				defer func() { _ = recover() }()
+				nw = decFromRaw(a.W).Mul(decFromRaw(a.Rate).Power(n.Uint64()))
+			}()
+			if nw.IsNil() {
+				continue // overflow: EndBlocker cannot have succeeded; C17 reports it
+			}
+			if nw.BigInt().Cmp(a.Min) < 0 {
+				nw = decFromRaw(a.Min)
+			}
+			if nw.BigInt().Cmp(a.Max) > 0 {
+				nw = decFromRaw(a.Max)
+			}
+			wantW = nw.BigInt()
+			wantLast = new(big.Int).Add(a.Last, new(big.Int).Mul(n, big.NewInt(a.Intv)))
+		}
+		if w.W.Cmp(wantW) != 0 {
+			st.fail("C14", "decay_exact", "asset %d weight %s -> %s, expected %s (due=%v)", a.Denom, a.W, w.W, wantW, due)
+		}
+		if w.Last.Cmp(wantLast) != 0 || w.Last.Cmp(now) > 0 && due {
+			st.fail("C14", "decay_clock", "asset %d decay clock %s -> %s, expected %s", a.Denom, a.Last, w.Last, wantLast)
+		}
+		// warm-up: initialised exactly from the first end-of-block at or after the start time
+		if w.Init != (a.Init || now.Cmp(a.Start) >= 0) {
+			st.fail("C14", "warmup", "asset %d initialised=%v at %s, start %s", a.Denom, w.Init, now, a.Start)
+		}
+	}
+}
+
+func histEq(a, b []Hist) bool {
+	if len(a) != len(b) {
+		return false
+	}
+	for i := range a {
+		if a[i].Denom != b[i].Denom || a[i].Alliance != b[i].Alliance || a[i].Index.Cmp(b[i].Index) != 0 {
+			return false
+		}
+	}
+	return true
+}
+
+// C13: every operation that changes or claims a position settles it first: afterwards the position's reward
+// indices are the validator's current indices for that alliance.
+func (e *Env) monitorSettled(st *Step, f []string, kind string, ok bool) {
+	if !ok {
+		return
+	}
+	post := st.PostS
+	var keys [][3]int
+	switch kind {
+	case "delegate", "undelegate":
+		keys = append(keys, [3]int{atoi(f[1]), atoi(f[2]), atoi(f[3])})
+	case "claim":
+		if f[3] == "-1" {
+			return
+		}
+		keys = append(keys, [3]int{atoi(f[1]), atoi(f[2]), atoi(f[3])})
+	case "redelegate":
+		keys = append(keys, [3]int{atoi(f[1]), atoi(f[2]), atoi(f[4])}, [3]int{atoi(f[1]), atoi(f[3]), atoi(f[4])})
+	default:
+		return
+	}
+	for _, k := range keys {
+		dl := post.Del(k[0], k[1], k[2])
+		a := post.Asset(k[2])
+		vi := post.Val(k[1])
+		if dl == nil || a == nil || vi == nil || post.Time.Cmp(a.Start) < 0 {
+			continue
+		}
+		var want []Hist
+		for _, h := range vi.Hist {
+			if h.Alliance == k[2] || h.Alliance == -1 {
+				want = append(want, h)
+			}
+		}
+		var have []Hist
+		for _, h := range dl.Hist {
+			if h.Alliance == k[2] || h.Alliance == -1 {
+				have = append(have, h)
+			}
+		}
+		if !histEq(have, want) {
+			st.fail("C13", "not_settled", "position (%d,%d,%d) was not settled by %s: indices %v, validator has %v", k[0], k[1], k[2], kind, have, want)
+		}
+	}
 }
